@@ -3,21 +3,21 @@ From LanceV Require Import Common.Base Io.Model_Chunker.
 
 Section ChunkerProofs.
 Context {A : Type}.
-Notation batch := (list A).
+Notation batch := (Model_Chunker.batch A).
 Notation item := (Model_Chunker.item A).
 
 (* ------------------------------------------------------------------ generic list facts *)
+Lemma rows_of_cons (b : batch) bs : rows_of (b :: bs) = length b + rows_of bs.
+Proof. reflexivity. Qed.
+
 Lemma rows_of_concat (bs : list batch) : rows_of bs = length (concat bs).
 Proof.
-  unfold rows_of, num_rows. induction bs as [|b bs IH]; cbn [map list_sum concat]; [reflexivity|].
-  rewrite app_length, IH. reflexivity.
+  induction bs as [|b bs IH]; [reflexivity|].
+  rewrite rows_of_cons, IH. cbn [concat]. rewrite app_length. reflexivity.
 Qed.
 
 Lemma rows_of_app (xs ys : list batch) : rows_of (xs ++ ys) = rows_of xs + rows_of ys.
 Proof. rewrite !rows_of_concat, concat_app, app_length. reflexivity. Qed.
-
-Lemma rows_of_cons (b : batch) bs : rows_of (b :: bs) = length b + rows_of bs.
-Proof. reflexivity. Qed.
 
 Lemma skipn_app_le (i : nat) (l1 l2 : list A) : i <= length l1 -> skipn i (l1 ++ l2) = skipn i l1 ++ l2.
 Proof.
@@ -34,6 +34,12 @@ Proof. intro H. rewrite firstn_app. rewrite firstn_all2 by lia. reflexivity. Qed
 
 Lemma skipn_app_ge (n : nat) (l1 l2 : list A) : length l1 <= n -> skipn n (l1 ++ l2) = skipn (n - length l1) l2.
 Proof. intro H. rewrite skipn_app. rewrite skipn_all2 by lia. reflexivity. Qed.
+
+Lemma skipn_add (a c : nat) (l : list A) : skipn (a + c) l = skipn c (skipn a l).
+Proof.
+  revert l; induction a as [|a IH]; intro l; [reflexivity|].
+  destruct l as [|x l]; [cbn [Nat.add skipn]; rewrite skipn_nil; reflexivity|]. cbn [Nat.add skipn]. apply IH.
+Qed.
 
 Lemma slice_ok (b : batch) off len : off + len <= length b -> slice b off len = Ok (firstn len (skipn off b)).
 Proof.
@@ -127,7 +133,7 @@ Lemma strict_poll_spec (n : nat) (Hn : 0 < n) : forall (inner : list item) (res 
 Proof.
   induction inner as [|it inner IH]; intro res.
   - (* inner exhausted *)
-    cbn [strict_poll]. destruct res as [r|]; cbn [num_rows].
+    cbn [strict_poll]. destruct res as [r|]; unfold num_rows.
     + destruct (n <=? length r) eqn:E.
       * apply Nat.leb_le in E. rewrite slice_ok by lia. cbn [obind skipn]. rewrite slice_tail by lia. cbn [obind].
         eexists _, _, _. split; [reflexivity|]. unfold sdata; cbn [res_rows oks concat]. rewrite !app_nil_r.
@@ -143,7 +149,7 @@ Proof.
            rewrite app_nil_r. repeat split. apply length_zero_nil; lia.
     + eexists _, _, _. split; [reflexivity|]. repeat split.
   - cbn [strict_poll].
-    destruct res as [r|]; cbn [num_rows].
+    destruct res as [r|]; unfold num_rows.
     + destruct (n <=? length r) eqn:E.
       * apply Nat.leb_le in E. rewrite slice_ok by lia. cbn [obind skipn]. rewrite slice_tail by lia. cbn [obind].
         eexists _, _, _. split; [reflexivity|]. unfold sdata; cbn [res_rows].
@@ -159,11 +165,11 @@ Proof.
               repeat split; try (cbn [length ierrs]; lia).
               ** symmetry; apply firstn_app_le; lia.
               ** destruct (r ++ b); [cbn in E2; lia | discriminate].
-              ** rewrite skipn_app_le by lia.
+              ** rewrite (skipn_app_le n (r ++ b)) by lia.
                  destruct (0 <? length (skipn n (r ++ b))) eqn:E3; cbn [res_rows]; [reflexivity|].
                  apply Nat.ltb_ge in E3. rewrite (length_zero_nil (skipn n (r ++ b))) by lia. reflexivity.
-           ++ destruct (IH (Some (r ++ b))) as (q & res' & inner' & Hq & Hs). rewrite Hq.
-              eexists _, _, _. split; [reflexivity|].
+           ++ destruct (IH (Some (r ++ b))) as (q & res' & inner' & Hq & Hs).
+              exists q, res', inner'. split; [exact Hq|].
               assert (Hd : sdata (Some (r ++ b)) inner = sdata (Some r) (IBatch b :: inner)).
               { unfold sdata; cbn [res_rows oks concat]. rewrite app_assoc. reflexivity. }
               rewrite Hd in Hs. destruct q as [[c| |]|]; cbn [ierrs length]; intuition lia.
@@ -178,8 +184,8 @@ Proof.
            ++ rewrite skipn_app_le by lia.
               destruct (0 <? length (skipn n b)) eqn:E3; cbn [res_rows]; [reflexivity|].
               apply Nat.ltb_ge in E3. rewrite (length_zero_nil (skipn n b)) by lia. reflexivity.
-        -- destruct (IH (Some b)) as (q & res' & inner' & Hq & Hs). rewrite Hq.
-           eexists _, _, _. split; [reflexivity|].
+        -- destruct (IH (Some b)) as (q & res' & inner' & Hq & Hs).
+           exists q, res', inner'. split; [exact Hq|].
            assert (Hd : sdata (Some b) inner = sdata None (IBatch b :: inner)) by reflexivity.
            rewrite Hd in Hs. destruct q as [[c| |]|]; cbn [ierrs length]; intuition lia.
       * eexists _, _, _. split; [reflexivity|]. unfold sdata; cbn [res_rows oks ierrs length]. repeat split; lia.
@@ -221,6 +227,434 @@ Proof.
   destruct (strict_unfold_spec n Hn (rows_of (oks inner) + length inner + 2) None inner) as (out & H).
   - unfold sdata; cbn [res_rows app]. rewrite rows_of_concat. lia.
   - exists out. exact H.
+Qed.
+
+(* ------------------------------------------------------------------ BatchReaderChunker *)
+(* the offset [i] points into the first buffered batch *)
+Definition ck_wf (buffered : list batch) (i : nat) : Prop :=
+  i = 0 \/ exists b rest, buffered = b :: rest /\ i < length b.
+
+(* rows still to be delivered from the buffer *)
+Definition bdata (buffered : list batch) (i : nat) : list A := skipn i (concat buffered).
+
+Lemma ck_wf_le buffered i : ck_wf buffered i -> i <= rows_of buffered.
+Proof.
+  intros [->|(b & rest & -> & H)]; [lia|]. rewrite rows_of_cons. lia.
+Qed.
+
+Lemma bdata_length buffered i : length (bdata buffered i) = rows_of buffered - i.
+Proof. unfold bdata. rewrite skipn_length, rows_of_concat. reflexivity. Qed.
+
+Lemma ck_wf_snoc buffered i b : ck_wf buffered i -> ck_wf (buffered ++ [b]) i.
+Proof.
+  intros [->|(b0 & rest & -> & H)]; [left; reflexivity|]. right. exists b0, (rest ++ [b]). split; [reflexivity | exact H].
+Qed.
+
+Lemma bdata_snoc buffered i b : ck_wf buffered i -> bdata (buffered ++ [b]) i = bdata buffered i ++ b.
+Proof.
+  intro H. unfold bdata. rewrite concat_app. cbn [concat]. rewrite app_nil_r.
+  apply skipn_app_le. rewrite <- rows_of_concat. apply ck_wf_le; exact H.
+Qed.
+
+Lemma fill_buffer_spec (n : nat) : forall (inner : list item) buffered i, ck_wf buffered i ->
+  exists fr inner' buffered', fill_buffer n inner buffered i = Ok (fr, inner', buffered') /\
+    ck_wf buffered' i /\
+    bdata buffered' i ++ concat (oks inner') = bdata buffered i ++ concat (oks inner) /\
+    length inner' <= length inner /\
+    match fr with
+    | FillOk => ierrs inner' = ierrs inner /\ (n <= length (bdata buffered' i) \/ inner' = [])
+    | FillErr => S (ierrs inner') = ierrs inner /\ length inner' < length inner
+    end.
+Proof.
+  induction inner as [|it inner IH]; intros buffered i Hwf.
+  - cbn [fill_buffer]. unfold buffered_len.
+    pose proof (ck_wf_le _ _ Hwf) as Hle.
+    destruct (rows_of buffered <? i) eqn:E; [apply Nat.ltb_lt in E; lia|].
+    destruct (rows_of buffered - i <? n) eqn:E2.
+    + eexists _, _, _. split; [reflexivity|]. repeat split; auto.
+    + apply Nat.ltb_ge in E2. eexists _, _, _. split; [reflexivity|]. repeat split; auto.
+  - cbn [fill_buffer]. unfold buffered_len.
+    pose proof (ck_wf_le _ _ Hwf) as Hle.
+    destruct (rows_of buffered <? i) eqn:E; [apply Nat.ltb_lt in E; lia|].
+    destruct (rows_of buffered - i <? n) eqn:E2.
+    + destruct it as [b|].
+      * destruct (IH (buffered ++ [b]) i (ck_wf_snoc _ _ b Hwf)) as (fr & inner' & buffered' & Hf & Hwf' & Hd & Hl & Hr).
+        exists fr, inner', buffered'. split; [exact Hf|]. split; [exact Hwf'|].
+        split; [rewrite Hd, bdata_snoc by exact Hwf; cbn [oks concat]; rewrite app_assoc; reflexivity|].
+        split; [cbn [length]; lia|].
+        destruct fr; cbn [ierrs length]; intuition lia.
+      * eexists _, _, _. split; [reflexivity|]. split; [exact Hwf|]. cbn [oks ierrs length]. repeat split; lia.
+    + apply Nat.ltb_ge in E2. eexists _, _, _. split; [reflexivity|]. split; [exact Hwf|].
+      repeat split; auto. left. rewrite bdata_length. exact E2.
+Qed.
+
+Lemma collect_spec (n : nat) : forall buffered i collected acc, ck_wf buffered i -> collected <= n ->
+  exists pieces buffered' i', collect n buffered i collected acc = Ok (acc ++ pieces, buffered', i') /\
+    ck_wf buffered' i' /\
+    concat pieces = firstn (n - collected) (bdata buffered i) /\
+    bdata buffered' i' = skipn (n - collected) (bdata buffered i) /\
+    Forall (fun p => p <> []) pieces.
+Proof.
+  induction buffered as [|b rest IH]; intros i collected acc Hwf Hc.
+  - cbn [collect]. exists [], [], i. rewrite app_nil_r.
+    split; [destruct (collected <? n); reflexivity|]. split; [exact Hwf|].
+    unfold bdata; cbn [concat]. rewrite skipn_nil, firstn_nil, skipn_nil. repeat split. constructor.
+  - cbn [collect]. destruct (collected <? n) eqn:E.
+    2:{ apply Nat.ltb_ge in E. exists [], (b :: rest), i. rewrite app_nil_r. split; [reflexivity|].
+        split; [exact Hwf|]. replace (n - collected) with 0 by lia. cbn [firstn skipn]. repeat split. constructor. }
+    apply Nat.ltb_lt in E. unfold num_rows.
+    destruct (length b =? 0) eqn:E0.
+    + apply Nat.eqb_eq in E0. apply length_zero_nil in E0. subst b.
+      assert (Hi : i = 0). { destruct Hwf as [->|(b0 & r0 & Eq & Hlt)]; [reflexivity|]. injection Eq as <- _. cbn in Hlt. lia. }
+      subst i. destruct (IH 0 collected acc (or_introl eq_refl) Hc) as (pieces & buffered' & i' & Hcol & Hwf' & Hp & Hd & Hne).
+      exists pieces, buffered', i'. split; [exact Hcol|]. split; [exact Hwf'|].
+      unfold bdata in *. cbn [concat app]. auto.
+    + apply Nat.eqb_neq in E0.
+      assert (Hi : i < length b).
+      { destruct Hwf as [->|(b0 & r0 & Eq & Hlt)]; [lia|]. injection Eq as <- _. exact Hlt. }
+      destruct (length b <? i) eqn:E1; [apply Nat.ltb_lt in E1; lia|].
+      assert (Hbd : bdata (b :: rest) i = skipn i b ++ concat rest).
+      { unfold bdata. cbn [concat]. apply skipn_app_le. lia. }
+      assert (Hsl : length (skipn i b) = length b - i) by apply skipn_length.
+      destruct (Nat.min (length b - i) (n - collected) =? length b - i) eqn:E2.
+      * apply Nat.eqb_eq in E2.
+        match goal with |- context [obind ?x _] => replace x with (@Ok batch (skipn i b)) end.
+        2:{ destruct (i =? 0) eqn:Ei; [apply Nat.eqb_eq in Ei; subst i; reflexivity|].
+            rewrite slice_ok by lia. f_equal. symmetry. apply firstn_all2. lia. }
+        cbn [obind].
+        destruct (IH 0 (collected + Nat.min (length b - i) (n - collected)) (acc ++ [skipn i b]) (or_introl eq_refl))
+          as (pieces & buffered' & i' & Hcol & Hwf' & Hp & Hd & Hne); [lia|].
+        exists (skipn i b :: pieces), buffered', i'.
+        split; [etransitivity; [exact Hcol|]; rewrite <- app_assoc; reflexivity|]. split; [exact Hwf'|].
+        rewrite Hbd. change (bdata rest 0) with (concat rest) in Hp, Hd.
+        split; [|split].
+        -- cbn [concat]. rewrite Hp, firstn_app_ge by lia. do 2 f_equal. lia.
+        -- rewrite Hd, skipn_app_ge by lia. f_equal. lia.
+        -- constructor; [|exact Hne]. intro Hnil. rewrite Hnil in Hsl. cbn in Hsl. lia.
+      * apply Nat.eqb_neq in E2.
+        assert (Htake : Nat.min (length b - i) (n - collected) = n - collected) by lia.
+        rewrite Htake. rewrite slice_ok by lia. cbn [obind].
+        destruct (collected + (n - collected) <? n) eqn:E3; [apply Nat.ltb_lt in E3; lia|].
+        exists [firstn (n - collected) (skipn i b)], (b :: rest), (i + (n - collected)).
+        split; [reflexivity|].
+        split; [right; exists b, rest; split; [reflexivity | lia]|].
+        rewrite Hbd. split; [|split].
+        -- cbn [concat]. rewrite app_nil_r. symmetry. apply firstn_app_le. lia.
+        -- unfold bdata. cbn [concat]. rewrite <- (skipn_app_le i b (concat rest)) by lia.
+           rewrite skipn_add. reflexivity.
+        -- constructor; [|constructor]. intro Hnil.
+           assert (Hl : length (firstn (n - collected) (skipn i b)) = n - collected) by (rewrite firstn_length; lia).
+           rewrite Hnil in Hl. cbn in Hl. lia.
+Qed.
+
+Definition ck_data (st : chunker A) : list A :=
+  bdata (ck_buffered st) (ck_i st) ++ concat (oks (ck_inner st)).
+Definition ck_ok (st : chunker A) : Prop := ck_wf (ck_buffered st) (ck_i st).
+
+Lemma concat_nil_nonempty (ps : list batch) : Forall (fun p => p <> []) ps -> concat ps = [] -> ps = [].
+Proof.
+  intros HF Hc. destruct ps as [|p ps]; [reflexivity|]. inversion HF; subst.
+  cbn [concat] in Hc. apply app_eq_nil in Hc. tauto.
+Qed.
+
+Lemma chunker_next_spec (n : nat) (Hn : 0 < n) (st : chunker A) : ck_ok st ->
+  exists r st', chunker_next n st = Ok (r, st') /\ ck_ok st' /\
+    match r with
+    | NextChunk c =>
+        ck_data st <> [] /\ concat c = firstn n (ck_data st) /\ Forall (fun p => p <> []) c /\
+        ck_data st' = skipn n (ck_data st) /\ ierrs (ck_inner st') = ierrs (ck_inner st)
+    | NextErr => ck_data st' = ck_data st /\ S (ierrs (ck_inner st')) = ierrs (ck_inner st)
+    | NextNone => ck_data st = [] /\ ierrs (ck_inner st) = 0
+    end.
+Proof.
+  intro Hok. unfold chunker_next.
+  destruct (fill_buffer_spec n (ck_inner st) (ck_buffered st) (ck_i st) Hok)
+    as (fr & inner' & buffered' & Hf & Hwf' & Hd & Hl & Hr).
+  rewrite Hf. cbn [obind]. destruct fr.
+  - destruct Hr as (He & Hfull).
+    destruct (collect_spec n buffered' (ck_i st) 0 [] Hwf' (Nat.le_0_l n)) as (pieces & b2 & i2 & Hcol & Hwf2 & Hp & Hd2 & Hne).
+    rewrite Hcol. cbn [obind app]. rewrite Nat.sub_0_r in Hp, Hd2.
+    assert (Hfirst : concat pieces = firstn n (ck_data st)).
+    { unfold ck_data. rewrite <- Hd, Hp. destruct Hfull as [Hge| ->].
+      - symmetry. apply firstn_app_le. exact Hge.
+      - cbn [oks concat]. rewrite app_nil_r. reflexivity. }
+    assert (Hrest : bdata b2 i2 ++ concat (oks inner') = skipn n (ck_data st)).
+    { unfold ck_data. rewrite <- Hd, Hd2. destruct Hfull as [Hge| ->].
+      - symmetry. apply skipn_app_le. exact Hge.
+      - cbn [oks concat]. rewrite !app_nil_r. reflexivity. }
+    destruct pieces as [|p ps].
+    + eexists _, _. split; [reflexivity|]. split; [exact Hwf2|].
+      cbn [concat] in Hfirst. symmetry in Hfirst.
+      assert (Hnil : ck_data st = []).
+      { destruct (ck_data st) as [|x l]; [reflexivity|]. destruct n; [lia|]. discriminate. }
+      split; [exact Hnil|]. rewrite <- He.
+      unfold ck_data in Hnil. rewrite <- Hd in Hnil. apply app_eq_nil in Hnil as [Hb Hi'].
+      destruct Hfull as [Hge| ->]; [rewrite Hb in Hge; cbn in Hge; lia | reflexivity].
+    + eexists _, _. split; [reflexivity|]. split; [exact Hwf2|].
+      split; [|split; [exact Hfirst | split; [exact Hne | split; [exact Hrest | exact He]]]].
+      intro Hnil. rewrite Hnil, firstn_nil in Hfirst. inversion Hne as [|? ? Hp0 _]; subst.
+      cbn [concat] in Hfirst. apply app_eq_nil in Hfirst. tauto.
+  - destruct Hr as (He & Hlt). eexists _, _. split; [reflexivity|]. split; [exact Hwf'|].
+    split; [exact Hd | exact He].
+Qed.
+
+Lemma chunk_unfold_spec (n : nat) (Hn : 0 < n) : forall fuel (st : chunker A), ck_ok st ->
+  length (ck_data st) + ierrs (ck_inner st) + 1 <= fuel ->
+  exists out, chunk_unfold fuel n st = Ok out /\ no_fuel out /\
+    chunks_of n (ck_data st) (map (@concat A) (ovals out)) /\
+    Forall (Forall (fun p => p <> [])) (ovals out) /\
+    oerrs out = ierrs (ck_inner st).
+Proof.
+  induction fuel as [|fuel IH]; intros st Hok Hf; [lia|].
+  cbn [chunk_unfold].
+  destruct (chunker_next_spec n Hn st Hok) as (r & st' & Hnx & Hok' & Hs). rewrite Hnx. cbn [obind].
+  destruct r as [|c|].
+  - destruct Hs as (Hd & He). eexists. split; [reflexivity|]. split; [apply no_fuel_nil|].
+    rewrite Hd. cbn. repeat split; [constructor | constructor | lia].
+  - destruct Hs as (Hne & Hc & HF & Hd & He).
+    assert (Hlen : length (ck_data st') < length (ck_data st)).
+    { rewrite Hd, skipn_length. destruct (ck_data st); [congruence|]. cbn [length]. lia. }
+    destruct (IH st' Hok') as (out & Ho & Hnf & Hch & HFF & Her); [lia|].
+    rewrite Ho. cbn [omap]. eexists. split; [reflexivity|]. split; [apply no_fuel_cons_val; exact Hnf|].
+    rewrite ovals_cons_val, oerrs_cons_val. cbn [map]. split; [|split; [constructor; assumption | lia]].
+    rewrite Hc. constructor; [exact Hne|]. rewrite <- Hd. exact Hch.
+  - destruct Hs as (Hd & He).
+    destruct (IH st' Hok') as (out & Ho & Hnf & Hch & HFF & Her); [rewrite Hd; lia|].
+    rewrite Ho. cbn [omap]. eexists. split; [reflexivity|]. split; [apply no_fuel_cons_err; exact Hnf|].
+    rewrite ovals_cons_err, oerrs_cons_err. split; [rewrite <- Hd; exact Hch | split; [exact HFF | lia]].
+Qed.
+
+Theorem chunk_stream_correct (n : nat) (inner : list item) : 0 < n ->
+  exists out, chunk_stream n inner = Ok out /\ no_fuel out /\
+    chunks_of n (concat (oks inner)) (map (@concat A) (ovals out)) /\
+    Forall (Forall (fun p => p <> [])) (ovals out) /\
+    oerrs out = ierrs inner.
+Proof.
+  intro Hn. unfold chunk_stream.
+  destruct (chunk_unfold_spec n Hn (chunk_fuel inner) {| ck_inner := inner; ck_buffered := []; ck_i := 0 |}) as (out & H).
+  - left; reflexivity.
+  - unfold ck_data, bdata, chunk_fuel; cbn [ck_inner ck_buffered ck_i concat skipn app].
+    rewrite rows_of_concat. pose proof (ierrs_le_length inner). lia.
+  - exists out. exact H.
+Qed.
+
+Lemma ovals_map_concat_item (l : list (oitem (list batch))) :
+  ovals (map concat_item l) = map (@concat A) (ovals l).
+Proof.
+  induction l as [|[c| |] l IH]; cbn [map concat_item]; [reflexivity | | exact IH | exact IH].
+  rewrite !ovals_cons_val. cbn [map]. f_equal. exact IH.
+Qed.
+
+Lemma oerrs_map_concat_item (l : list (oitem (list batch))) : oerrs (map concat_item l) = oerrs l.
+Proof.
+  induction l as [|[c| |] l IH]; cbn [map concat_item]; [reflexivity | | | exact IH].
+  - rewrite !oerrs_cons_val. exact IH.
+  - rewrite !oerrs_cons_err. f_equal. exact IH.
+Qed.
+
+Lemma no_fuel_map_concat_item (l : list (oitem (list batch))) : no_fuel l -> no_fuel (map concat_item l).
+Proof.
+  unfold no_fuel. intros H Hin. apply in_map_iff in Hin as (x & Hx & Hin). destruct x; try discriminate. exact (H Hin).
+Qed.
+
+Theorem chunk_concat_stream_correct (n : nat) (inner : list item) : 0 < n ->
+  exists out, chunk_concat_stream n inner = Ok out /\ no_fuel out /\
+    chunks_of n (concat (oks inner)) (ovals out) /\ oerrs out = ierrs inner.
+Proof.
+  intro Hn. unfold chunk_concat_stream.
+  destruct (chunk_stream_correct n inner Hn) as (out & Ho & Hnf & Hch & _ & He). rewrite Ho. cbn [omap].
+  eexists. split; [reflexivity|]. split; [apply no_fuel_map_concat_item; exact Hnf|].
+  rewrite ovals_map_concat_item, oerrs_map_concat_item. split; assumption.
+Qed.
+
+(* ------------------------------------------------------------------ break_stream *)
+Lemma ovals_app {X} (l1 l2 : list (oitem X)) : ovals (l1 ++ l2) = ovals l1 ++ ovals l2.
+Proof. unfold ovals. apply flat_map_app. Qed.
+Lemma ovals_map_OVal {X} (l : list X) : ovals (map OVal l) = l.
+Proof. induction l as [|x l IH]; [reflexivity|]. cbn [map]. rewrite ovals_cons_val, IH. reflexivity. Qed.
+Lemma oerrs_app {X} (l1 l2 : list (oitem X)) : oerrs (l1 ++ l2) = oerrs l1 + oerrs l2.
+Proof. unfold oerrs. rewrite filter_app, app_length. reflexivity. Qed.
+Lemma oerrs_map_OVal {X} (l : list X) : oerrs (map OVal l) = 0.
+Proof. induction l as [|x l IH]; [reflexivity|]. cbn [map]. rewrite oerrs_cons_val. exact IH. Qed.
+Lemma no_fuel_app {X} (l1 l2 : list (oitem X)) : no_fuel l1 -> no_fuel l2 -> no_fuel (l1 ++ l2).
+Proof. unfold no_fuel. intros H1 H2 Hin. apply in_app_or in Hin. tauto. Qed.
+Lemma no_fuel_map_OVal {X} (l : list X) : no_fuel (map OVal l).
+Proof. unfold no_fuel. intro Hin. apply in_map_iff in Hin as (x & Hx & _). discriminate. Qed.
+
+(* the pieces cut from ONE input batch whose first row has absolute offset [off]:
+   none empty, none crosses a multiple of [max], and every piece but the last ends on a multiple *)
+Fixpoint pieces_ok (max off : nat) (ps : list batch) : Prop :=
+  match ps with
+  | [] => True
+  | p :: rest => p <> [] /\ off mod max + length p <= max /\
+                 (rest <> [] -> (off + length p) mod max = 0) /\
+                 pieces_ok max (off + length p) rest
+  end.
+
+Fixpoint groups_ok (max off : nat) (gs : list (list batch)) : Prop :=
+  match gs with
+  | [] => True
+  | g :: rest => pieces_ok max off g /\ groups_ok max (off + length (concat g)) rest
+  end.
+
+Lemma mod_complete (max off : nat) : 0 < max -> (off + (max - off mod max)) mod max = 0.
+Proof.
+  intro H. pose proof (Nat.mod_upper_bound off max ltac:(lia)) as Hb.
+  rewrite (Nat.div_mod off max) at 1 by lia.
+  replace (max * (off / max) + off mod max + (max - off mod max)) with ((off / max + 1) * max) by lia.
+  apply Nat.mod_mul. lia.
+Qed.
+
+Lemma bs_unfold_spec (max : nat) (Hmax : 0 < max) : forall fuel (b : batch) (off : nat),
+  length b + 2 <= fuel ->
+  exists ps, bs_unfold fuel {| bs_max := max; bs_seen := off mod max; bs_remaining := length b; bs_batch := Some b |}
+             = Ok (map OVal ps) /\ concat ps = b /\ pieces_ok max off ps.
+Proof.
+  induction fuel as [|fuel IH]; intros b off Hf; [lia|].
+  cbn [bs_unfold]. unfold bs_next. cbn [bs_max bs_seen bs_remaining bs_batch].
+  pose proof (Nat.mod_upper_bound off max ltac:(lia)) as Hb.
+  destruct (length b =? 0) eqn:E0.
+  - apply Nat.eqb_eq in E0. apply length_zero_nil in E0. subst b. exists []. cbn. auto.
+  - apply Nat.eqb_neq in E0.
+    destruct (length b + off mod max <=? max) eqn:E1.
+    + apply Nat.leb_le in E1. destruct (max =? 0) eqn:Em; [apply Nat.eqb_eq in Em; lia|].
+      cbn [obind]. destruct fuel as [|fuel]; [lia|]. cbn [bs_unfold]. unfold bs_next. cbn [bs_remaining Nat.eqb obind omap].
+      exists [b]. cbn [map concat]. rewrite app_nil_r. split; [reflexivity|]. split; [reflexivity|].
+      cbn [pieces_ok]. repeat split; try lia; [intro Hn; subst b; cbn in E0; lia | congruence].
+    + apply Nat.leb_gt in E1.
+      destruct (max <? off mod max) eqn:E2; [apply Nat.ltb_lt in E2; lia|].
+      destruct (length b <? max - off mod max) eqn:E3; [apply Nat.ltb_lt in E3; lia|].
+      rewrite slice_ok by (cbn [Nat.add]; lia). cbn [obind skipn]. unfold num_rows.
+      destruct (length b <? max - off mod max) eqn:E4; [discriminate|].
+      rewrite slice_tail by lia. cbn [obind].
+      set (emit := max - off mod max) in *.
+      destruct (IH (skipn emit b) (off + emit)) as (ps & Hu & Hc & Hp).
+      { rewrite skipn_length. lia. }
+      assert (Hz : (off + emit) mod max = 0) by (apply mod_complete; lia).
+      rewrite Hz, skipn_length in Hu. rewrite Hu. cbn [omap].
+      exists (firstn emit b :: ps). cbn [map concat]. split; [reflexivity|]. split; [rewrite Hc; apply firstn_skipn|].
+      assert (Hl : length (firstn emit b) = emit) by (rewrite firstn_length; lia).
+      cbn [pieces_ok]. rewrite Hl. repeat split; try lia; [|exact Hp].
+      intro Hn. rewrite Hn in Hl. cbn in Hl. lia.
+Qed.
+
+Lemma break_loop_spec (max : nat) (Hmax : 0 < max) : forall (inner : list item) (off : nat),
+  exists out groups, break_loop max (off mod max) inner = Ok out /\ no_fuel out /\
+    oerrs out = ierrs inner /\ ovals out = concat groups /\
+    Forall2 (fun g b => concat g = b) groups (oks inner) /\ groups_ok max off groups.
+Proof.
+  induction inner as [|[b|] inner IH]; intro off.
+  - exists [], []. cbn. repeat split; [apply no_fuel_nil | constructor].
+  - cbn [break_loop]. destruct (max =? 0) eqn:Em; [apply Nat.eqb_eq in Em; lia|].
+    unfold num_rows.
+    destruct (bs_unfold_spec max Hmax (length b + 2) b off (Nat.le_refl _)) as (ps & Hu & Hc & Hp).
+    rewrite Hu. cbn [obind].
+    rewrite Nat.add_mod_idemp_l by lia.
+    destruct (IH (off + length b)) as (out & groups & Ho & Hnf & He & Hv & HF & Hg).
+    rewrite Ho. cbn [omap].
+    exists (map OVal ps ++ out), (ps :: groups).
+    split; [reflexivity|]. split; [apply no_fuel_app; [apply no_fuel_map_OVal | exact Hnf]|].
+    split; [rewrite oerrs_app, oerrs_map_OVal; cbn [ierrs]; lia|].
+    split; [rewrite ovals_app, ovals_map_OVal, Hv; reflexivity|].
+    split; [cbn [oks]; constructor; assumption|].
+    cbn [groups_ok]. rewrite Hc. split; assumption.
+  - cbn [break_loop]. destruct (IH off) as (out & groups & Ho & Hnf & He & Hv & HF & Hg).
+    rewrite Ho. cbn [omap]. exists (OErr :: out), groups.
+    split; [reflexivity|]. split; [apply no_fuel_cons_err; exact Hnf|].
+    rewrite oerrs_cons_err, ovals_cons_err. cbn [ierrs oks]. repeat split; auto.
+Qed.
+
+Theorem break_stream_correct (max : nat) (inner : list item) : 0 < max ->
+  exists out groups, break_stream max inner = Ok out /\ no_fuel out /\
+    oerrs out = ierrs inner /\ ovals out = concat groups /\
+    Forall2 (fun g b => concat g = b) groups (oks inner) /\ groups_ok max 0 groups.
+Proof.
+  intro Hmax. unfold break_stream.
+  destruct (break_loop_spec max Hmax inner 0) as (out & groups & H).
+  rewrite Nat.mod_0_l in H by lia. exists out, groups. exact H.
+Qed.
+
+Lemma break_stream_zero_panics (b : batch) (inner : list item) :
+  break_stream 0 (IBatch b :: inner) = Panic.
+Proof. reflexivity. Qed.
+
+(* ---- consequences in terms of the flat output *)
+Fixpoint flat_ok (max off : nat) (ps : list batch) : Prop :=
+  match ps with
+  | [] => True
+  | p :: r => p <> [] /\ off mod max + length p <= max /\ flat_ok max (off + length p) r
+  end.
+
+Lemma pieces_flat max : forall g off rest,
+  pieces_ok max off g -> flat_ok max (off + length (concat g)) rest -> flat_ok max off (g ++ rest).
+Proof.
+  induction g as [|p g IH]; intros off rest Hp Hr.
+  - cbn [concat length app] in *. rewrite Nat.add_0_r in Hr. exact Hr.
+  - cbn [pieces_ok] in Hp. destruct Hp as (Hne & Hw & _ & Hp). cbn [app flat_ok]. split; [exact Hne|]. split; [exact Hw|].
+    apply IH; [exact Hp|]. cbn [concat] in Hr. rewrite app_length in Hr. rewrite <- Nat.add_assoc. exact Hr.
+Qed.
+
+Lemma groups_flat max : forall gs off, groups_ok max off gs -> flat_ok max off (concat gs).
+Proof.
+  induction gs as [|g gs IH]; intros off H; [exact I|].
+  cbn [groups_ok] in H. destruct H as (Hp & Hg). cbn [concat]. apply pieces_flat; [exact Hp | apply IH; exact Hg].
+Qed.
+
+Lemma flat_ok_split max : forall pre off p post,
+  flat_ok max off (pre ++ p :: post) -> p <> [] /\ (off + length (concat pre)) mod max + length p <= max.
+Proof.
+  induction pre as [|q pre IH]; intros off p post H.
+  - cbn [app flat_ok concat length] in *. rewrite Nat.add_0_r. tauto.
+  - cbn [app flat_ok] in H. destruct H as (_ & _ & H). apply IH in H.
+    cbn [concat]. rewrite app_length, Nat.add_assoc. exact H.
+Qed.
+
+(* every multiple of max up to the total is a boundary between two output batches *)
+Lemma flat_ok_boundary max (Hmax : 0 < max) : forall ps off t,
+  flat_ok max off ps -> t mod max = 0 -> off <= t <= off + length (concat ps) ->
+  exists pre post, ps = pre ++ post /\ off + length (concat pre) = t.
+Proof.
+  induction ps as [|p r IH]; intros off t H Ht Hr.
+  - cbn [concat length] in Hr. exists [], []. split; [reflexivity|]. cbn. lia.
+  - destruct (Nat.eq_dec t off) as [->|Hne].
+    + exists [], (p :: r). split; [reflexivity|]. cbn. lia.
+    + cbn [flat_ok] in H. destruct H as (Hp & Hw & H).
+      cbn [concat] in Hr. rewrite app_length in Hr.
+      assert (Hge : off + length p <= t).
+      { apply Nat.mod_divides in Ht; [|lia]. destruct Ht as (q & ->).
+        pose proof (Nat.div_mod off max ltac:(lia)) as Hdm.
+        pose proof (Nat.mod_upper_bound off max ltac:(lia)) as Hb.
+        assert (Hq : off / max < q).
+        { apply Nat.lt_nge. intro Hle.
+          assert (max * q <= max * (off / max)) by (apply Nat.mul_le_mono_l; exact Hle). lia. }
+        assert (max * (off / max + 1) <= max * q) by (apply Nat.mul_le_mono_l; lia). lia. }
+      destruct (IH (off + length p) t H Ht) as (pre & post & -> & Hl); [lia|].
+      exists (p :: pre), post. split; [reflexivity|]. cbn [concat]. rewrite app_length. lia.
+Qed.
+
+Lemma Forall2_concat_map (gs : list (list batch)) (bs : list batch) :
+  Forall2 (fun g b => concat g = b) gs bs -> concat (concat gs) = concat bs.
+Proof.
+  induction 1 as [|g b gs bs Hg HF IH]; [reflexivity|]. cbn [concat]. rewrite concat_app, IH, Hg. reflexivity.
+Qed.
+
+Theorem break_stream_flat (max : nat) (inner : list item) : 0 < max ->
+  exists out, break_stream max inner = Ok out /\ no_fuel out /\ oerrs out = ierrs inner /\
+    concat (ovals out) = concat (oks inner) /\
+    (forall pre p post, ovals out = pre ++ p :: post ->
+       p <> [] /\ length (concat pre) mod max + length p <= max) /\
+    (forall k, k * max <= length (concat (ovals out)) ->
+       exists pre post, ovals out = pre ++ post /\ length (concat pre) = k * max).
+Proof.
+  intro Hmax. destruct (break_stream_correct max inner Hmax) as (out & groups & Ho & Hnf & He & Hv & HF & Hg).
+  exists out. split; [exact Ho|]. split; [exact Hnf|]. split; [exact He|].
+  pose proof (groups_flat max groups 0 Hg) as Hfl. rewrite <- Hv in Hfl.
+  split; [rewrite Hv; apply Forall2_concat_map; exact HF|]. split.
+  - intros pre p post E. rewrite E in Hfl. apply flat_ok_split in Hfl. exact Hfl.
+  - intros k Hk. destruct (flat_ok_boundary max Hmax (ovals out) 0 (k * max) Hfl) as (pre & post & E & Hl).
+    + apply Nat.mod_mul. lia.
+    + lia.
+    + exists pre, post. split; [exact E | exact Hl].
 Qed.
 
 End ChunkerProofs.
